@@ -1865,10 +1865,12 @@ func (p *bprover) prove(facts []bfact, goal blin, at *ssa.BasicBlock, splits int
 			// quotient and remainder: their facts are conditional on the sign
 			// of the dividend, so what is known about the dividend matters
 			if bo, ok := a.v.(*ssa.BinOp); ok && a.k == aVal && (bo.Op == token.QUO || bo.Op == token.REM) {
-				for b := range p.linOf(bo.X).t {
-					if !rel[b] {
-						rel[b] = true
-						changed = true
+				for _, op := range []ssa.Value{bo.X, bo.Y} {
+					for b := range p.linOf(op).t {
+						if !rel[b] {
+							rel[b] = true
+							changed = true
+						}
 					}
 				}
 			}
@@ -1893,6 +1895,23 @@ func (p *bprover) prove(facts []bfact, goal blin, at *ssa.BasicBlock, splits int
 	}
 	if p.infeasible(append(append([]blin{}, cons...), negGoal)) {
 		return true
+	}
+	// strengthen with disequalities: d != 0 and d >= 0  =>  d >= 1
+	if len(diseq) > 0 {
+		strengthened := false
+		for _, d := range diseq {
+			nd, _ := d.scale(-1)
+			if p.infeasible(append(append([]blin{}, cons...), nd.addc(-1))) { // d >= 0 holds
+				cons = append(cons, d.addc(-1))
+				strengthened = true
+			} else if p.infeasible(append(append([]blin{}, cons...), d.addc(-1))) { // d <= 0 holds
+				cons = append(cons, nd.addc(-1))
+				strengthened = true
+			}
+		}
+		if strengthened && p.infeasible(append(append([]blin{}, cons...), negGoal)) {
+			return true
+		}
 	}
 	// conditional facts: q = x / c with c > 0 constant and x >= 0 provable  =>  c*q <= x <= c*q + c - 1
 	added := false
@@ -1961,23 +1980,6 @@ func (p *bprover) prove(facts []bfact, goal blin, at *ssa.BasicBlock, splits int
 	}
 	if added && p.infeasible(append(append([]blin{}, cons...), negGoal)) {
 		return true
-	}
-	// strengthen with disequalities: d != 0 and d >= 0  =>  d >= 1
-	if len(diseq) > 0 {
-		strengthened := false
-		for _, d := range diseq {
-			nd, _ := d.scale(-1)
-			if p.infeasible(append(append([]blin{}, cons...), nd.addc(-1))) { // d >= 0 holds
-				cons = append(cons, d.addc(-1))
-				strengthened = true
-			} else if p.infeasible(append(append([]blin{}, cons...), d.addc(-1))) { // d <= 0 holds
-				cons = append(cons, nd.addc(-1))
-				strengthened = true
-			}
-		}
-		if strengthened && p.infeasible(append(append([]blin{}, cons...), negGoal)) {
-			return true
-		}
 	}
 	// case split over the predecessors of a join block: all phis and memory
 	// merges of that block are replaced by their values on the edge, and the
